@@ -10,6 +10,8 @@ Op lines (strings are given as dot-separated hexadecimal code points, `-` = empt
                             directory, `<path>=<hex of the UTF-8 content>` for a file (public key shown as `<<PUBKEY>>`,
                             the keypair file's content as `KEYPAIR`)
 * `replace <pat> <rep> <text>` → `ok <result>` (model of `str::replace`; `pat` non-empty)
+* `race <arg> kind=<file|emptydir|dir|symlink|dangling>` → `race kept` | `race replaced` (a competitor creates the target
+  between the exists() probe and the rename)
 * `scaffold <arg> pre=<none|file|dir|emptydir|symlink|symlinkdir|dangling> fault=<none|cls:k:ERRNO|cls:a..b:ERRNO> [at=raw]`
                           → `<ok|err|panic> <complete n=<entries> h=<listing hash>|clean|dirty>`
   (the pre-existing entry sits at the trimmed name, or with `at=raw` at the raw argument; `a..b` = every call
@@ -41,8 +43,10 @@ def str (cs : List Char) : String := String.ofList cs
 def entryHash (isDirNode : Bool) (q : Path) : Nat :=
   hashChars ((if isDirNode then ['d', ':'] else ['f', ':']) ++ List.intercalate ['/'] q)
 
-def okErrnos : List String :=
-  ["EACCES", "ENOSPC", "EIO", "EXDEV", "EROFS", "EMFILE", "EPERM", "EDQUOT", "ENOTDIR", "EISDIR", "ENAMETOOLONG", "ELOOP", "ENOMEM", "EBUSY", "ENOTEMPTY"]
+/-- errno names accepted in fault tokens (Linux numbers); `EEXIST`, `ENOENT`, `EINTR` have constructors of their own. -/
+def okErrnos : List (String × Nat) :=
+  [("EPERM", 1), ("EIO", 5), ("ENOMEM", 12), ("EACCES", 13), ("EBUSY", 16), ("EXDEV", 18), ("ENOTDIR", 20), ("EISDIR", 21),
+   ("EMFILE", 24), ("ENOSPC", 28), ("EROFS", 30), ("ENAMETOOLONG", 36), ("ENOTEMPTY", 39), ("ELOOP", 40), ("EDQUOT", 122)]
 
 def parseNat (k : String) : Option Nat :=
   if !k.isEmpty && k.all Char.isDigit then k.toNat? else none
@@ -56,7 +60,8 @@ def parseFault (s : String) : Option Fault :=
       else if c = "write" then some .write else if c = "rename" then some .rename else none
     let err : Option Errno :=
       if e = "EEXIST" then some .eexist else if e = "ENOENT" then some .enoent
-      else if okErrnos.contains e then some .other else none
+      else if e = "EINTR" then some .eintr
+      else (okErrnos.find? (·.1 == e)).map (fun x => Errno.other x.2)
     let range : Option (Nat × Nat) :=
       match k.splitOn ".." with
       | [a] => (parseNat a).map (fun a => (a, a))
@@ -175,6 +180,21 @@ def step (_ : Unit) (toks : List String) : Unit × String :=
       match parseCps a with
       | some raw => projectOp raw
       | none => "bad-op"
+    | ["race", a, kind] =>
+      -- a competitor creates the target after the exists() probe and before the rename (outside the model's
+      -- no-concurrency assumption). For a file / non-empty dir / symlink the model's view is exactly the
+      -- "invisible to exists(), present at rename" pre-state: rename fails, cleanup runs, the entry is kept.
+      -- An EMPTY directory is replaced by rename(2) — kernel semantics the model's rename does not have;
+      -- the answer for it is the constant the harness tolerates.
+      match parseCps a, kind.dropPrefix? "kind=" with
+      | some raw, some k =>
+        let k := k.toString
+        if raw.contains (Char.ofNat 0) || raw.length > 64 || !(accepted (validateArg raw)) then "bad-op"
+        else if k = "emptydir" then "race replaced"
+        else if k = "file" ∨ k = "dir" ∨ k = "symlink" ∨ k = "dangling" then
+          (if scaffoldOp raw "dangling" (fun _ _ => none) false = "err clean" then "race kept" else "race violation")
+        else "bad-op"
+      | _, _ => "bad-op"
     | ["replace", p, r, t] =>
       match parseCps p, parseCps r, parseCps t with
       | some p, some r, some t => replaceOp p r t
